@@ -57,3 +57,48 @@ func oracleC03ActionAttrs(typeSel int, pos int, nExtra int, kind int, id int64) 
 		vAssert(len(a.OSM.Relations) == 1 && int64(a.OSM.Relations[0].ID) == id)
 	}
 }
+
+// C03, root attributes: an <osm> or <osmChange> root written by an independent
+// writer with any subset of version, generator, copyright, attribution and
+// license in any order decodes to exactly those values.
+//
+//@ func oracleC03RootAttrs
+//@   props C03
+//@   oracle
+//@   covers osm.Change
+//@   covers (schema)C03#root-attr
+func oracleC03RootAttrs(present int, rot int, change bool) {
+	abs := func(x int) int {
+		if x < 0 {
+			if x == -x {
+				return 0
+			}
+			return -x
+		}
+		return x
+	}
+	names := []string{"version", "generator", "copyright", "attribution", "license"}
+	vals := map[string]string{}
+	var attrs []string
+	r := abs(rot) % 5
+	for i := 0; i < 5; i++ {
+		n := names[(i+r)%5]
+		if abs(present)>>uint((i+r)%5)&1 == 1 {
+			vals[n] = "v-" + n
+			attrs = append(attrs, n+`="v-`+n+`"`)
+		}
+	}
+	if change {
+		doc := `<osmChange ` + strings.Join(attrs, " ") + `><create><node id="1"/></create></osmChange>`
+		var c Change
+		vAssert(xml.Unmarshal([]byte(doc), &c) == nil)
+		vAssert(c.Version == vals["version"] && c.Generator == vals["generator"] && c.Copyright == vals["copyright"] && c.Attribution == vals["attribution"] && c.License == vals["license"])
+		vAssert(c.Create != nil && len(c.Create.Nodes) == 1)
+		return
+	}
+	doc := `<osm ` + strings.Join(attrs, " ") + `><node id="1"/></osm>`
+	var o OSM
+	vAssert(xml.Unmarshal([]byte(doc), &o) == nil)
+	vAssert(o.Version == vals["version"] && o.Generator == vals["generator"] && o.Copyright == vals["copyright"] && o.Attribution == vals["attribution"] && o.License == vals["license"])
+	vAssert(len(o.Nodes) == 1)
+}
